@@ -39,6 +39,18 @@ CHECKS = {
         "Trusted: vk.oracles.gf2 codebook enumeration. t taken from the advertised distance; where the advertisement itself is false (RS-style, a listed finding) the attainable t is used.",
         "3 C02",
     ),
+    "C05": (
+        "runtime monitoring: boundary oracle (exact bit equality with the scheme's documented start-up loss) on real modulator/demodulator pairs in eval mode after reset, plus a call-history monitor that eval-mode state does not carry over",
+        "Held (apart from listed pi/4-QPSK findings) for every scheme/order/labelling/normalisation built directly and through the registry on every bit group, every ordered pair/triple for schemes with memory, random sequences, 1-D and batched layouts. Exploration with exhaustive symbol sub-spaces.",
+        "Trusted: the expected-bits model written from the property text (differential reference loss, OQPSK one-symbol Q delay).",
+        "3 C05",
+    ),
+    "C14": (
+        "runtime monitoring: effective-constellation oracle (driving the real modulator with all 2^b groups, comparing with published tables, energy, nearest-neighbour Gray distance) and exhaustive contracts on the Gray utilities",
+        "Every scheme/order/option; every nearest-neighbour pair; Gray utilities exhaustively on n<2^16 and seeded n<2^60 in scalar/list/tensor forms. Exploration with exhaustive sub-spaces.",
+        "Trusted: Python integer arithmetic for the Gray laws; float32 tolerance 1e-5 on energies.",
+        "3 C14",
+    ),
 }
 
 ALL = [f"C{i:02d}" for i in range(1, 21)]
